@@ -15,6 +15,7 @@ import (
 	"os"
 	"runtime/debug"
 	"strings"
+	"time"
 )
 
 type ufPoint struct {
@@ -285,6 +286,27 @@ func NoPanic(label string, f func()) (ok bool) {
 	f()
 	Assert(true, label)
 	return true
+}
+
+// MustReturn runs f and reports a violation labelled label if f does not return: under gsx
+// when the region exceeds its decision/instruction budget on some path (a livelock shows up as
+// an unbounded path), natively when f has not returned after 3 seconds. primitive under gsx.
+func MustReturn(label string, f func()) (returned bool) {
+	done := make(chan any, 1)
+	go func() {
+		defer func() { done <- recover() }()
+		f()
+	}()
+	select {
+	case r := <-done:
+		if r != nil {
+			panic(r)
+		}
+		return true
+	case <-time.After(3 * time.Second):
+		Fail(label)
+		return false
+	}
 }
 
 // PrintStack prints the current goroutine's stack natively (for triage). primitive (no-op under gsx).
